@@ -125,6 +125,23 @@ Definition mmap_shift (s : fp) : res fp :=
     Ok (mkFp (firstn mapped_size (skipn mapped_offset (fp_file s))) ignore cap' at_end' mapped_offset
              false true (fp_rc s) (fp_os s) (fp_file s) (fp_page s) ((mapped_offset, mapped_size) :: fp_maps s)).
 
+(* MMapShift when MapRead throws for any reason (ENOMEM, ENODEV on special files, EINVAL for /proc files
+   whose st_size is 0): the catch block -- seek the descriptor to desired_begin (unless it is 0),
+   at_end_ = false, TransitionToRead().  Nothing of the old window survives; read() takes over at the byte
+   the caller was going to look at next. *)
+Definition mmap_shift_failing (s : fp) : res fp :=
+  let desired_begin := (fp_pos s + fp_moff s)%nat in
+  let ignore := (desired_begin mod fp_page s)%nat in
+  let cap' := if (fp_pos s =? ignore)%nat && fp_mapped s then (fp_cap s * fp_mmap_grow)%nat else fp_cap s in
+  let mapped_offset := (desired_begin - ignore)%nat in
+  let total := length (fp_file s) in
+  let mapped_size := if (total - mapped_offset <=? cap')%nat then (total - mapped_offset)%nat else cap' in
+  let o := fp_os s in
+  let o1 := if (desired_begin =? 0)%nat then o
+            else mkOs (skipn desired_begin (fp_file s)) (os_script o) (os_trace o) (os_sink o) in
+  transition_to_read (mkFp [] O cap' false (fp_moff s) false (fp_mapped s) (fp_rc s) o1 (fp_file s) (fp_page s)
+                           ((mapped_offset, mapped_size) :: fp_maps s)).
+
 (* void FilePiece::Shift() *)
 Definition shift (s : fp) : res fp :=
   if fp_at_end s then Fail EEndOfFile
@@ -163,6 +180,14 @@ Definition fp_open_file (page cap : nat) (file : list Z) (off : nat) (script : l
     if negb (fp_fallback s) && (rc_magic_size <=? length (fp_buf s) - fp_pos s)%nat
        && detect_magic (firstn rc_magic_size (skipn (fp_pos s) (fp_buf s)))
     then Fail ECompressed else Ok s
+  end.
+
+(* the same constructor when the FIRST mmap fails: Shift = MMapShift (catch block), then ReadShift;
+   the magic test of Initialize does nothing in read mode (ReadFactory has already looked) *)
+Definition fp_open_file_mmap_fails (page cap : nat) (file : list Z) (off : nat) (script : list outcome) : res fp :=
+  match mmap_shift_failing (mkFp [] O cap false off false false RcFd (os_init (skipn off file) script) file page []) with
+  | Fail e => Fail e
+  | Ok s => read_shift s
   end.
 
 (* std::find(first, last, delim) - first *)
